@@ -38,6 +38,10 @@ CHECKS = {
    technique="deterministic simulation of call histories: a seeded, replayable pre-history of mode toggles, train/eval forwards on differing batch shapes and resets drives one modulator/demodulator pair, then the post-reset eval-mode round trip through an ideal channel is compared with a reference model of each scheme's start-up loss; sequences walk every symbol and every ordered symbol pair",
    text="Seeded search over (scheme, order, labeling, construction path, pre-history, layout, bit sequence). For memoryless schemes this degenerates to the zero-fault configuration of the link; for DPSK/OQPSK/pi4-QPSK the history is what makes the state matter. Evidence over sampled histories; all-symbol and all-pair sequences are exhaustive per case for orders <= 16.",
    note="Trusted: the 20-line reference of start-up loss (DPSK drops the reference symbol's bits; OQPSK delays Q by one symbol, first Q slot unspecified); nothing asserted about train-mode outputs or pre-history calls."),
+ "C20": dict(engine="histsim", design="§5.2",
+   technique="deterministic simulation of a batching layer: a seeded, replayable history of calls on one shared component instance (singletons, permuted batches, (n,)/(B,n)/(B1,B2,n)/(B,b*n) layouts, repeats, interleaved fresh instances) checked with the answer-set rule — every successful evaluation of a sample must give the same answer whatever batch, position, layout, neighbours or call history; inputs cloned and compared",
+   text="Seeded search over (component, sample pool with special members, call history) across every encoder, hard/soft decoder, memoryless modulator/demodulator and per-item constraint. Evidence over the sampled histories; a layout the component rejects contributes nothing and is counted.",
+   note="Trusted: the component's own answers are the only reference (no independent model needed); exact comparison for bit outputs, rtol 1e-4 for float outputs; float-path ties are not generated because torch kernels decide them by last-ulp rounding."),
 }
 
 NOT_APPLICABLE = {
